@@ -7,11 +7,12 @@ state, and each probe outcome is compared with the same probe on a pristine equa
 ever requested).  Loaders handed out earlier are re-probed after the later operations; original retorts are re-probed after
 replace/extend.
 """
+import copy
 import itertools
 from dataclasses import dataclass, make_dataclass
 from typing import Annotated, Callable, Dict, Generic, List, Literal, NewType, Optional, Sequence, TypeVar, Union
 
-from adaptix import DebugTrail, Retort, dumper, loader, name_mapping
+from adaptix import DebugTrail, P, Retort, dumper, loader, name_mapping
 from adaptix.conversion import ConversionRetort, coercer
 
 from mc import codec, env, parallel
@@ -475,8 +476,85 @@ def shard(args):
     return report
 
 
+# ------------------------------------------------------------------------------------------------------------
+# location-dependent recipes: a type that can be served only below certain locations (requests for it elsewhere FAIL)
+
+class Opaque:
+    """no loader can be generated for it; the recipe supplies one for some locations only"""
+
+    def __eq__(self, other):
+        return type(other) is Opaque
+
+    def __repr__(self):
+        return "Opaque()"
+
+    __hash__ = None
+
+
+@dataclass
+class LNode:
+    left: Optional["LNode"] = None
+    right: Optional["LNode"] = None
+    tag: Optional[Opaque] = None
+
+
+@dataclass
+class LTree:
+    root: LNode
+
+
+def _located_retort():
+    under_tree = (P[LTree].root.tag | (P[LTree].root.left + P[LNode].tag) | (P[LTree].root.right + P[LNode].tag))
+    return Retort(recipe=[loader(under_tree, lambda x: Opaque())])
+
+
+LOCATED_DATA = [{"root": {}}, {"root": {"left": {"right": {"left": {"right": {}}}}}}, {"root": {"tag": 1, "left": {"tag": 2}}},
+                {"root": {"left": {"left": {"tag": 1}}}}]
+LOCATED_OPS = [("get_loader", "LNode"), ("get_loader", "LTree"), ("load", "LTree", 1), ("load", "LNode", 0), ("get_dumper", "LNode")]
+_LOCATED_TYPES = {"LNode": LNode, "LTree": LTree}
+
+
+def located_leg(report, max_len):
+    """all histories of the operations above (some of them fail: LNode on its own cannot be loaded) on one retort, then every
+    probe compared with a fresh equal retort: a failed request must leave nothing behind"""
+    def probes(r):
+        return {(name, i): outcome(r.load, copy.deepcopy(d), tp) for name, tp in _LOCATED_TYPES.items() for i, d in enumerate(LOCATED_DATA)}
+    env.reset_process_caches()
+    want = {}
+    for key in probes(_located_retort()):
+        env.reset_process_caches()
+        want[key] = probes(_located_retort())[key]
+    for n in range(1, max_len + 1):
+        for hist in itertools.product(LOCATED_OPS, repeat=n):
+            env.reset_process_caches()
+            r = _located_retort()
+            for op in hist:
+                tp = _LOCATED_TYPES[op[1]]
+                try:
+                    if op[0] == "get_loader":
+                        r.get_loader(tp)
+                    elif op[0] == "get_dumper":
+                        r.get_dumper(tp)
+                    else:
+                        r.load(copy.deepcopy(LOCATED_DATA[op[2]]), tp)
+                except Exception:  # noqa: BLE001, S110
+                    pass
+            got = probes(r)
+            report.count("traces_validated_against_impl", 1)
+            report.case(("located", hist), nontrivial=True, sample={"leg": "located", "history": [list(o) for o in hist]})
+            for key, g in got.items():
+                report.evaluations += 1
+                if g != want[key]:
+                    report.violation({"check": "C11", "kind": "located_recipe", "after_failed_request": True},
+                                     f"recipe with a loader bound to locations below LTree only: after history {[list(o) for o in hist]} "
+                                     f"the retort answers probe {key} with {g[:120]} but a fresh equal retort answers {want[key][:120]}",
+                                     {"leg": "located", "history": [list(o) for o in hist], "probe": list(map(str, key))})
+                    break
+
+
 def run(tier):
     report = Report()
+    located_leg(report, 2 if tier == "quick" else 3)
     ops = operations()
     if tier == "quick":
         # every history of length 1, and every history of length 2 whose first operation touches a shared key class, a
@@ -512,6 +590,11 @@ def extra_evidence(report, tier):
 
 def replay(case):
     report = Report()
+    if case.get("leg") == "located":
+        located_leg(report, len(case["history"]))
+        for v in report.violations.values():
+            return v["what"]
+        return None
     run_history(tuple(tuple(op) for op in case["history"]), report)
     for v in report.violations.values():
         return v["what"]
